@@ -17,9 +17,10 @@ template<class R> Mat<typename R::S,3,1> vec3(R& rec, const std::string& p, cons
   Mat<typename R::S,3,1> v; v<<rec.var(p+"x",w[0]),rec.var(p+"y",w[1]),rec.var(p+"z",w[2]); return v; }
 template<class R> Mat<typename R::S,4,1> unitq(R& rec, const std::string& p, int w){
   typedef typename R::S S; Mat<S,4,1> q; q<<rec.var(p+"qx",WQ[w][0]),rec.var(p+"qy",WQ[w][1]),rec.var(p+"qz",WQ[w][2]),rec.var(p+"qw",WQ[w][3]);
-  rec.hyp("unitq",{q(0),q(1),q(2),q(3)}); return q; }
+  if(rec.inv_mode){ S n=q.squaredNorm(); S e(manif::Constants<S>::eps); rec.assume(S(1.0)-e,1,n); rec.assume(n,1,S(1.0)+e); rec.hyp("nearunitq",{q(0),q(1),q(2),q(3)}); }
+  else rec.hyp("unitq",{q(0),q(1),q(2),q(3)}); return q; }
 template<class R> Mat<typename R::S,2,1> unitc(R& rec, const std::string& p, int w){
-  typedef typename R::S S; Mat<S,2,1> c; c<<rec.var(p+"re",WC[w][0]),rec.var(p+"im",WC[w][1]); rec.hyp("unitc",{c(0),c(1)}); return c; }
+  typedef typename R::S S; Mat<S,2,1> c; c<<rec.var(p+"re",WC[w][0]),rec.var(p+"im",WC[w][1]); if(rec.inv_mode){ S n=c.squaredNorm(); S e(manif::Constants<S>::eps); rec.assume(S(1.0)-e,1,n); rec.assume(n,1,S(1.0)+e); rec.hyp("nearunitc",{c(0),c(1)}); } else rec.hyp("unitc",{c(0),c(1)}); return c; }
 // documented rotation matrix of a unit quaternion (x,y,z,w)
 template<class S> Mat<S,3,3> Rq(const Mat<S,4,1>& q){
   S x=q(0),y=q(1),z=q(2),w=q(3); Mat<S,3,3> R; S two(2.0), one(1.0);
